@@ -436,7 +436,9 @@ Fixpoint has_dup (l : list nat) : bool :=
   | i :: r => existsb (Nat.eqb i) r || has_dup r
   end.
 
-Definition f1_class (P : program) (q : query) : bool :=
+(** Superseded, wide version (kept only so that the evidence can report how much narrower the
+    class became): two or more unknowns, or one unknown reaching a non-linear head. *)
+Definition f1_class_wide (P : program) (q : query) : bool :=
   let cls := query_clauses P q in
   let start := syms_of (goal_atoms (q_body q)) in
   let R0 := reachS (graph_fuel cls (length start)) cls start [] in
@@ -447,6 +449,43 @@ Definition f1_class (P : program) (q : query) : bool :=
      | None => false
      | Some h => memN h R0 && has_dup (vars (chead c))
      end) cls).
+
+(** The hypotheses of a goal, and whether one mentions a variable of the goal (an index
+    beyond its own [hn] variables). *)
+Fixpoint goal_hyps_of (g : goal) : list hyp :=
+  match g with
+  | GAnd g1 g2 => goal_hyps_of g1 ++ goal_hyps_of g2
+  | GForall g' | GExists g' | GNot g' => goal_hyps_of g'
+  | GIf hs g' => hs ++ goal_hyps_of g'
+  | _ => []
+  end.
+
+Definition hyp_mentions_goal_var (h : hyp) : bool :=
+  existsb (fun i => Nat.leb (hn h) i) (vars (chead (hc h))).
+
+(** F1 needs a *first answer whose substitution repeats a variable* (guidance produced by
+    merging never repeats one).  Such an answer can only come from resolving with a clause
+    head that repeats a variable, or with a hypothesis that mentions an unknown of the goal
+    (two unknowns matched against the same hypothesis variable).  Same shape as
+    [Perm.f1_order_class]. *)
+Definition f1_class (P : program) (q : query) : bool :=
+  let cls := query_clauses P q in
+  let start := syms_of (goal_atoms (q_body q)) in
+  let R0 := reachS (graph_fuel cls (length start)) cls start [] in
+  negb (Nat.eqb (length (q_ubs q)) 0) &&
+  (existsb (fun c =>
+     match hsym (chead c) with
+     | None => false
+     | Some h => memN h R0 && has_dup (vars (chead c))
+     end) cls
+   || existsb hyp_mentions_goal_var (goal_hyps_of (q_body q))).
+
+(** The symptom that is forgiven: definite guidance that itself repeats a bound variable. *)
+Definition guidance_repeats (a : answer) : bool :=
+  match a with
+  | ADefinite _ s => has_dup (flat_map vars s)
+  | _ => false
+  end.
 
 (** Known class F7q (found by the C05 builder; same mechanism as DESIGN §5 F7, but within one
     query): the ground search space of the goal contains a coinductive atom [g], different
@@ -566,9 +605,9 @@ Module ContractExamples.
   Example rr1 : rr (allc P1 []).
   Proof. apply rr_allb_spec. reflexivity. Qed.
 
-  Theorem f1_refuted : f1_class P1 q1 = true /\ ~ contract P1 [] q1 slg1.
+  Theorem f1_refuted : f1_class P1 q1 = true /\ guidance_repeats slg1 = true /\ ~ contract P1 [] q1 slg1.
   Proof.
-    split; [reflexivity|].
+    split; [reflexivity|]. split; [reflexivity|].
     apply (check_answer_alarm_sound 50 P1 [] q1 slg1 [[Vec I32; U32]] 2 rr1). reflexivity.
   Qed.
 
@@ -626,4 +665,20 @@ Module ContractExamples.
     f7n_class 50 P7q (GNot (GAtom (C (K 2)))) = true /\ eval_goal 50 P7q [] [] (GNot (GAtom (C (K 2)))) = Some false /\
     f7n_class 50 P7q (GAtom (C (K 2))) = false.
   Proof. repeat split; reflexivity. Qed.
+  (* F1 through hypotheses: exists<A,B> { if (B: Tr; A: Tr) { A: Tr } } with SLG's definite [^0, ^0];
+     and a two-unknown goal without hypotheses over linear heads is OUTSIDE the class *)
+  Definition TrX t := tapp 1001 [t].
+  Definition qh := mkQuery 0 [0%N; 0%N]
+    (GIf [mkHyp 0 (mkClause (TrX (TVar 0)) []); mkHyp 0 (mkClause (TrX (TVar 1)) [])] (GAtom (TrX (TVar 1)))).
+  Example f1_hyp_witness :
+    f1_class (mkProg [] []) qh = true /\ guidance_repeats (ADefinite [0%N] [TVar 0; TVar 0]) = true /\
+    ~ contract (mkProg [] []) [] qh (ADefinite [0%N] [TVar 0; TVar 0]) /\
+    f1_class (mkProg [mkClause (TrX I32) []; mkClause (TrX (Vec (TVar 0))) []] [])
+             (mkQuery 0 [0%N; 0%N] (GAnd (GAtom (TrX (TVar 0))) (GAtom (TrX (TVar 1))))) = false.
+  Proof.
+    split; [reflexivity|]. split; [reflexivity|]. split; [|reflexivity].
+    apply (check_answer_alarm_sound 50 (mkProg [] []) [] qh (ADefinite [0%N] [TVar 0; TVar 0]) [[I32; U32]] 2).
+    - apply rr_allb_spec. reflexivity.
+    - reflexivity.
+  Qed.
 End ContractExamples.
